@@ -355,6 +355,32 @@ def check_names(k, tier, res):
                              'comment text appears although keep_comments is off: %r -> %r'
                              % (src, out), case)
                 res.nontriv_distinct()
+        if what == 'e':
+            # the other direction, for every environment that renders its body: with
+            # keep_comments on, a comment in the body -- also one after the last row separator,
+            # just before \end -- appears wherever the body text around it appears
+            kopts = [o for o in (quick_opts() if tier == 'quick' else ALL_OPTS)
+                     if o['keep_comments'] and o['math_mode'] in ('text', 'with-delimiters')][:4]
+            bodies = ['XBQ %CMTQ\n y', 'XBQ \\\\ %CMTQ\n', 'XBQ & b \\\\ c & d \\\\ %CMTQ\n ',
+                      'XBQ\n%CMTQ\n']
+            for body in bodies:
+                src = 'A ' + b + _args(a, True) + body + e + ' B'
+                for o in kopts:
+                    res.case()
+                    case = {'src': src, 'opts': o}
+                    try:
+                        with monitor.budget(len(src)):
+                            out = l2t(o).latex_to_text(src, latex_context=wctx())
+                    except BaseException as ex:
+                        res.fail(exc_key(ex), exc_detail(ex) + ' on %r' % src, case)
+                        continue
+                    flat = ''.join(out.split())
+                    if 'XBQ' in flat and 'CMTQ' not in flat:
+                        res.fail('c12:comment-missing:in-environment-body',
+                                 'keep_comments is on and the body of %s is rendered, but its '
+                                 'comment is missing: %r -> %r' % (n, src, out), case)
+                    res.nontriv_distinct()
+            res.label('comment-kept-in-every-rendered-environment-body')
         res.label('comment-after-every-known-name')
 
 
